@@ -3,3 +3,5 @@
 use crate::engine::*;
 
 pub fn run_c11_includes(_ctx: &RunCtx) {}
+
+pub fn run_c12_includes(_ctx: &RunCtx) {}
